@@ -60,25 +60,26 @@ where
         }
         let window_len = T::from(self.window_len).expect("can convert");
         if self.q_vals.len() >= self.window_len {
-            // remove old
-            let old_val = *self.q_vals.front().unwrap();
-            let change = old_val - self.old_ref;
-            self.old_ref = old_val;
-            self.q_vals.pop_front();
-            if change > T::zero() {
-                self.avg_gain = self.avg_gain - change / window_len;
-            } else {
-                self.avg_loss = self.avg_loss - change.abs() / window_len;
-            }
+            // remove old; `old_ref` is the predecessor of the oldest value in the window
+            self.old_ref = self.q_vals.pop_front().unwrap();
         }
         self.q_vals.push_back(val);
-
-        let change = val - self.last_val;
         self.last_val = val;
-        if change > T::zero() {
-            self.avg_gain = self.avg_gain + change / window_len;
-        } else {
-            self.avg_loss = self.avg_loss + change.abs() / window_len;
+
+        // Sum the gains and losses of the window afresh. Running sums that add the newest change and subtract
+        // the evicted one keep rounding residue of values that have left the window; on a flat window
+        // that residue was all that remained and the ratio below became -inf or left [0, 100].
+        self.avg_gain = T::zero();
+        self.avg_loss = T::zero();
+        let mut prev = self.old_ref;
+        for v in self.q_vals.iter() {
+            let change = *v - prev;
+            prev = *v;
+            if change > T::zero() {
+                self.avg_gain = self.avg_gain + change / window_len;
+            } else {
+                self.avg_loss = self.avg_loss + change.abs() / window_len;
+            }
         }
 
         if self.q_vals.len() < self.window_len {
